@@ -280,7 +280,9 @@ func runC17(rc *RunCtx) {
 		for _, v := range perLoc {
 			sumLoc += v
 		}
-		if math.Abs(sumKey-sumLoc) > eps {
+		// judged on the final, quiescent scrape only: while connections start and
+		// stop the two families may legitimately be collected an instant apart
+		if sc == fin && math.Abs(sumKey-sumLoc) > eps {
 			rc.Failf("per-location-total-differs", "scrape at %v: per-key tunnel time sums to %.9f, per-location to %.9f", sc.t0, sumKey, sumLoc)
 		}
 		for k := range perKey {
@@ -410,6 +412,9 @@ func runC17s(rc *RunCtx) {
 	for _, r := range m.TCP {
 		a := r.first("auth")
 		if a == nil {
+			continue
+		}
+		if r.Server == nil {
 			continue
 		}
 		host, _, _ := net.SplitHostPort(r.Server.RemoteAddr().String())
